@@ -93,7 +93,7 @@ def run(ctx):
                                 if is_call(r, "::collect") and find_calls(r, "str>::split_whitespace"):
                                     via = mentions(r, lambda s: s[0] == "const" and isinstance(s[2], tuple) and s[2][0] == "fn" and s[2][1] == c["via"])
                                     res = "Result" in " ".join(r[2])
-                                    okc = okc or (via and res and not find_calls(r, "::flatten", "::filter_map", "::rev", "::take", "::skip"))
+                                    okc = okc or (via and res and not find_calls(r, "::flatten", "::filter_map", "::filter", "::rev", "::take", "::skip", "::take_while", "::skip_while", "::map_while", "::step_by", "::dedup"))
                         ok = okc and has_try(t)
                         why = "%s is not split_whitespace().map(%s).collect::<Result<Vec,_>>()? (any bad item fails the record)" % (f, c["via"])
                 ctx.check(ok, "D1-KEY-FIELD", DK, "field=%s" % f, "%s <- %s (%s)" % (f, key, c["kind"]), why, fn_span(body))
